@@ -21,6 +21,7 @@ from chameleon.namespaces import TAL_NS as TAL
 from chameleon.namespaces import XML_NS
 from chameleon.namespaces import XMLNS_NS
 from chameleon.program import ElementProgram
+from chameleon.tokenize import Token
 from chameleon.utils import ImportableMarker
 from chameleon.utils import decode_htmlentities
 
@@ -705,7 +706,11 @@ class MacroProgram(ElementProgram):
 
     def visit_processing_instruction(self, node):
         if node['name'] != 'python':
-            text = '<?' + node['name'] + node['text'] + '?>'
+            name = node['name']
+            text = '<?' + name + node['text'] + '?>'
+            if isinstance(name, Token):
+                # keep the position of the instruction in the source
+                text = Token(text, name.pos - 2, name.source, name.filename)
             return self.visit_text(text)
 
         return nodes.CodeBlock(node['text'])
